@@ -5,6 +5,7 @@ import (
 	"fmt"
 	"io"
 	"slices"
+	"strings"
 
 	"reduction.dev/reduction/dkv/kv"
 	"reduction.dev/reduction/dkv/sst"
@@ -176,6 +177,16 @@ func LoadCheckpointList(fs storage.FileSystem, dataOwnership kv.DataOwnership, c
 		// Merge level list
 		for levelIndex, level := range doc.Levels {
 			compositeCheckpointDoc.Levels[levelIndex] = append(compositeCheckpointDoc.Levels[levelIndex], level...)
+		}
+	}
+
+	// Levels below level 0 are searched by key range, so their tables must be in
+	// key order whatever order the handles were given in.
+	if len(rest) > 0 {
+		for levelIndex := 1; levelIndex < len(compositeCheckpointDoc.Levels); levelIndex++ {
+			slices.SortStableFunc(compositeCheckpointDoc.Levels[levelIndex], func(a, b sst.TableDocument) int {
+				return strings.Compare(a.StartKey, b.StartKey)
+			})
 		}
 	}
 
